@@ -260,6 +260,20 @@ def gen(rng, cfg, tier='quick', kf=False):
             stmts.append(['elt', v, [], r])
             secure_vars.add(v)
         G.append(v)
+    if rng.random() < 0.15:
+        # a securely computed identity (a @ ~a: any representation of it) compared with the canonical one
+        a = rng.choice([x for x in G if x in secure_vars])
+        vi, z, e, b = fresh(), fresh(), fresh(), fresh()
+        ident = {'perm': list(range(gd['n']))} if kind == 'Sn' else {'pow': 0}
+        if rng.random() < 0.5:
+            ident['secure'] = False
+        else:
+            secure_vars.add(e)
+        stmts += [[rng.choice(('inv', 'inverse')), vi, [a], {}], ['op', z, [a, vi], {}], ['elt', e, [], ident],
+                  [rng.choice(('eq', 'eq', 'ne')), b, [z, e] if rng.random() < 0.7 else [e, z] if e in secure_vars else [z, e], {}]]
+        G += [vi, z, e]
+        secure_vars |= {vi, z}
+        B.append(b)
     n_ops = rng.randint(1, 2 if heavy else 4)
     for _ in range(n_ops * 3):
         if n_ops <= 0:
